@@ -174,6 +174,75 @@ def trees(ctx, a, cases):
             node_lines(t)
 
 
+
+def walk(ctx, a):
+    """the reader cursor under every mix of calls: at each value of a concatenation (recursively inside containers) the walk either reads
+    it with the typed call, peeks and reads with header=, peeks and skips, or peeks twice first; before and after every step the header the
+    reader reports must be the header of the value AT the cursor (computed by the independent DER reader from the known encodings)"""
+    import der
+    rng = ctx.rng
+
+    def hdr_of(enc):
+        cls, cons, num, content, end = der.read_tlv(enc, 0)
+        return (cls, cons, num, end - len(content), len(content))
+
+    def seen(h):
+        return (int(h.tag.tag_class), bool(h.tag.is_constructed), int(h.tag.tag_number), h.tag_length, h.length)
+
+    class Bad(Exception):
+        pass
+
+    def step(r, kids, trail):
+        for i, t in enumerate(kids):
+            enc = ref_tree(t)
+            want = hdr_of(enc)
+            act = rng.choice(["read", "peek-read", "peek-skip", "peek-peek-read", "peek-skip"])
+            trail.append(f"{act}:{t[0]}")
+            ctx.count("cursor_walk:" + act)
+            if act != "read":
+                for _ in range(2 if act == "peek-peek-read" else 1):
+                    h = r.peek_header()
+                    if seen(h) != want:
+                        raise Bad(f"peek_header reports {seen(h)} at a value whose header is {want}")
+            if act == "peek-skip":
+                r.skip_value(h)
+                continue
+            k, v = t
+            kw = {} if act == "read" else {"header": h}
+            if k in ("seq", "set"):
+                inner = (r.read_sequence if k == "seq" else r.read_set)(**kw)
+                step(inner, v, trail)
+                if inner or inner.get_remaining_data():
+                    raise Bad("octets left over inside a container")
+            else:
+                got = {"int": r.read_integer, "oct": r.read_octet_string, "utf8": r.read_utf8_string, "oid": r.read_object_identifier,
+                       "bool": r.read_boolean}[k](**kw)
+                if got != v:
+                    raise Bad(f"read {got!r} where {v!r} was written")
+        if kids and bool(r):
+            pass  # (the caller checks what is left)
+
+    for i in range(600 if ctx.thorough else 150):
+        forest = [gen_tree(rng, rng.choice([0, 1, 2, 3])) for _ in range(rng.choice([2, 3, 4, 6]))]
+        enc = b"".join(ref_tree(t) for t in forest)
+        trail = []
+        r = a.ASN1Reader(enc + b"\x04\x01\xAA")
+        try:
+            step(r, forest, trail)
+            h = r.peek_header()
+            left = bytes(r.get_remaining_data())
+            if seen(h) != (0, False, 4, 2, 1) or left != b"\x04\x01\xAA":
+                raise Bad(f"after the walk the reader is not at the sentinel: header {seen(h)}, left {hx(left)}")
+        except Bad as e:
+            ctx.violation("the reader cursor loses its place under a mix of peek / skip / read calls",
+                          {"forest": repr(forest)[:400], "encoding": hx(enc)[:400], "calls": " ".join(trail), "scenario": "cursor_walk"}, str(e)[:200], "the value at the cursor")
+            return
+        except Exception as e:  # noqa
+            ctx.violation("the reader fails on a well-formed concatenation under a mix of peek / skip / read calls",
+                          {"forest": repr(forest)[:400], "encoding": hx(enc)[:400], "calls": " ".join(trail), "scenario": "cursor_walk"}, canon_exc(e), "the values")
+            return
+
+
 def run(ctx):
     import dpapi_ng._asn1 as a
     prelude.validate(ctx)
@@ -334,6 +403,7 @@ def run(ctx):
             if r.startswith("err ") and r[4:] not in ("ValueError", "NotEnougData"):
                 ctx.violation("reader escapes with an internal error type", {"reader": name, "data": hx(s)}, r, "ValueError or NotEnougData")
     trees(ctx, a, cases)
+    walk(ctx, a)
     flush()
 
 
